@@ -27,6 +27,25 @@ Fixpoint tee_loop (reads : list bytes) (file stream : bytes) : bytes * bytes :=
     end
   end.
 
+(* The same loop when Conductor's own stream stops accepting data: it takes the first [ok] writes
+   and raises OSError / ValueError on the next one (a reader that went away, a full device).
+   From then on `stream_ok` is False: nothing more is forwarded, but every chunk still goes to the
+   log and the pipe is still drained to its end (D25; before the repair the exception ended the
+   copier thread). *)
+Fixpoint tee_loop_f (ok : nat) (reads : list bytes) (file stream : bytes) : bytes * bytes :=
+  match reads with
+  | [] => (file, stream)
+  | data :: rest =>
+    match data with
+    | [] => (file, stream)
+    | _ :: _ =>
+      match ok with
+      | O => tee_loop_f O rest (file ++ data) stream                 (* the write raised, or stream_ok is False *)
+      | S k => tee_loop_f k rest (file ++ data) (stream ++ data)
+      end
+    end
+  end.
+
 (* with open(file_name, "wb") as file: ...   (the log starts empty) *)
 Definition tee_pipe_run (reads : list bytes) (stream : bytes) : bytes * bytes := tee_loop reads [] stream.
 
@@ -85,25 +104,24 @@ Definition deliver (rt : record_type) (writes : list bytes) (c : channel) : chan
   end.
 
 (* ---------- run_task_executable.py:finish_execution ---------- *)
-Inductive effect := WriteArgsJson | WriteOptionsJson | InsertRow | CommitIndex.
+Inductive effect := WriteArgsJson | WriteOptionsJson | RaiseNonZeroExit | InsertRow | CommitIndex.
 
-(* None = TaskNonZeroExit is raised (before anything is written) *)
+(* in program order: args.json / options.json are written for every execution (D26: they used to
+   come after the exit-status test); a non-zero status then raises TaskNonZeroExit, otherwise the
+   version's row is inserted and committed *)
 Definition finish_execution (returncode : N) (serialize_args_options : bool)
-           (args_empty options_empty : bool) (has_version : bool) : option (list effect) :=
-  if negb (returncode =? 0) then None
-  else Some ((if serialize_args_options
-              then (if negb args_empty then [WriteArgsJson] else [])
-                   ++ (if negb options_empty then [WriteOptionsJson] else [])
-              else [])
-             ++ (if has_version then [InsertRow; CommitIndex] else [])).
+           (args_empty options_empty : bool) (has_version : bool) : list effect :=
+  (if serialize_args_options
+   then (if negb args_empty then [WriteArgsJson] else [])
+        ++ (if negb options_empty then [WriteOptionsJson] else [])
+   else [])
+  ++ (if negb (returncode =? 0) then [RaiseNonZeroExit]
+      else if has_version then [InsertRow; CommitIndex] else []).
 
 (* which of args.json / options.json exist after a run_experiment execution *)
 Definition record_rule {A B} (args : list A) (options : list B) (returncode : N) : bool * bool :=
-  match finish_execution returncode true
-          (match args with [] => true | _ => false end)
-          (match options with [] => true | _ => false end) true with
-  | None => (false, false)
-  | Some evs =>
-    (existsb (fun e => match e with WriteArgsJson => true | _ => false end) evs,
-     existsb (fun e => match e with WriteOptionsJson => true | _ => false end) evs)
-  end.
+  let evs := finish_execution returncode true
+               (match args with [] => true | _ => false end)
+               (match options with [] => true | _ => false end) true in
+  (existsb (fun e => match e with WriteArgsJson => true | _ => false end) evs,
+   existsb (fun e => match e with WriteOptionsJson => true | _ => false end) evs).
